@@ -249,6 +249,7 @@ func extractC19(c *ctxT) {
 	str("intermediateSenderFmt", fmtStr, "IntermediateSender: format of the hash type prefix")
 	strs("intermediateSenderFmtArgs", fmtArgs, "its arguments")
 	strs("intermediateSenderHashArgs", hashArgs, "arguments of address.Hash")
+	c.c19Flow(&sb)
 	sb.WriteString("end FxVerif.Gen.C19\n")
 	c.write("C19.lean", sb.String())
 }
